@@ -49,7 +49,7 @@ func (Engine) Describe(prop string) core.Description {
 			"only 'differs => not equal' is demanded of Equal/EqualStrict, never the converse; 'differs' means a different type name, field-name set, canonical field value (to-many as sets) or ID",
 			"struct-backed types are reflect.StructOf types without methods",
 		}
-		d.Probes = []string{"set-untyped-nil", "set-typed-nil", "set-nil-list", "set-id", "equal-pair-renamed-field", "equal-pair-renamed-type", "equal-pair-value", "equal-pair-id", "equal-cross-impl", "re-added-removed-field"}
+		d.Probes = []string{"set-untyped-nil", "set-typed-nil", "set-nil-list", "set-id", "equal-pair-renamed-field", "equal-pair-renamed-type", "equal-pair-value", "equal-pair-id", "equal-cross-impl", "re-added-removed-field", "set-slice-handed-over-before", "equal-pair-join-collision"}
 	case "C18":
 		d.Rule = "one run = one generated resource (soft or wrapped, to-many lists and byte strings biased non-empty), a Copy / New / Type.Copy of it, then 1..20 mutations each applied to one side chosen per step (Set, type edits, MarshalResource with all relationship data, Filter '=' on a to-many, writes through slices obtained from Get) while the other side's full observation is compared with its snapshot from just before the step; " +
 			"non-trivial = at least 2 mutations of which one goes through a shared-state candidate (slice write, marshal, filter, type edit); distinct = distinct event-log hash"
@@ -57,7 +57,7 @@ func (Engine) Describe(prop string) core.Description {
 			"pointees of nullable scalar attributes are not mutated (the statement lists slices only)",
 			"immediately after Copy, source and copy must agree on type name, field definitions, ID and every value (nil/empty equivalences as in C17)",
 		}
-		d.Probes = []string{"mutate-slice-write-ids", "mutate-slice-write-bytes", "mutate-slice-write-ptr-bytes", "mutate-marshal", "mutate-filter", "mutate-type-edit", "mutate-set", "copy-of-wrapped", "copy-of-soft", "new-of-wrapped", "new-of-soft", "type-copy", "copy-of-copy", "mutate-type-edit-via-GetType"}
+		d.Probes = []string{"mutate-slice-write-ids", "mutate-slice-write-bytes", "mutate-slice-write-ptr-bytes", "mutate-marshal", "mutate-filter", "mutate-type-edit", "mutate-set", "copy-of-wrapped", "copy-of-soft", "new-of-wrapped", "new-of-soft", "type-copy", "copy-of-copy", "mutate-type-edit-via-GetType", "mutate-append-through-get", "soft-of-struct-built-type"}
 	}
 
 	return d
@@ -173,6 +173,7 @@ func runC17(t *core.Tape, st *core.Stats) *core.Violation {
 	maxOps := t.Bound(40, 100)
 	stop := t.Range(3, maxOps)
 	readEvery := []int{1, 1, 1, 2, 4}[t.Draw(5)]
+	handed := map[string]interface{}{}
 
 	for i := 0; i < maxOps && t.More(stop); i++ {
 		var (
@@ -218,12 +219,40 @@ func runC17(t *core.Tape, st *core.Stats) *core.Violation {
 			}
 		}
 
+		// re-use the slice handed over last time for this Go type (see below)?
+		reuse := false
+
+		switch val.(type) {
+		case []string, []byte:
+			if prev, ok := handed[fmt.Sprintf("0:%T", val)]; ok && t.Bool(1, 4) {
+				reuse = true
+				val = world.CloneValue(prev) // the model holds what that slice holds now
+				model.Vals[field] = world.CloneValue(val)
+
+				st.Inc("probe:set-slice-handed-over-before")
+			}
+		}
+
 		t.Logf("Set(%q, %s) [%s]", field, world.Show(val), desc)
 		st.Inc("op:Set")
 		st.Steps++
 
-		for _, tw := range twins {
+		for ti, tw := range twins {
 			arg := world.CloneValue(val)
+
+			// now and then the caller hands over a slice it has already handed over for
+			// another field (same backing array): legal, and the two fields must still
+			// read what was set on each
+			key := fmt.Sprintf("%d:%T", ti, val)
+
+			switch val.(type) {
+			case []string, []byte:
+				if prev, ok := handed[key]; ok && reuse {
+					arg = prev
+				} else {
+					handed[key] = arg
+				}
+			}
 
 			if p := core.Call(func() { tw.res.Set(field, arg) }); p != nil {
 				return viol(P, "no-panic", p.Func, "set:"+desc+":"+p.Class, "%s.Set(%q, %s) panicked: %s", tw.name, field, world.Show(val), p.Value)
